@@ -434,7 +434,11 @@ static int property_main(const Options &o) {
     return 3;
   }
   Tier tier = tier_of(o.tier);
-  std::string outdir = g_root + "/out/" + o.property;
+  // CRABSIM_SCRATCH=<name>: an exploratory run that must not disturb the files of a
+  // registered check running at the same time (out/<P>, evidence/<P>.json)
+  const char *scratch = getenv("CRABSIM_SCRATCH");
+  std::string outdir = scratch ? g_root + "/out_bg/" + scratch + "/" + o.property
+                               : g_root + "/out/" + o.property;
   mkdir_p(outdir);
   mkdir_p(g_root + "/evidence");
   // clean old worker files
@@ -824,7 +828,8 @@ static int property_main(const Options &o) {
   ev.set("assumptions", as);
   ev.set("wall_s", wall);
   ev.set("violations", (long)violation_lines.size());
-  write_file(g_root + "/evidence/" + o.property + ".json", ev.dump(1));
+  write_file(scratch ? outdir + "/evidence.json" : g_root + "/evidence/" + o.property + ".json",
+             ev.dump(1));
 
   printf("summary property=%s runs=%ld distinct_results=%zu paths=%zu candidates=%ld "
          "violations=%zu known=%zu crashes=%ld wall=%.1fs\n",
